@@ -21,10 +21,10 @@ pub fn configs(thorough: bool) -> Vec<Config> {
         Config { name: "l1-h25-w1", heights: &[25], ws: &[1] },
         Config { name: "l2-h10.5-w2.4", heights: &[10, 5], ws: &[2, 4] },
         Config { name: "l3-h5.5.5-w1.1.1", heights: &[5, 5, 5], ws: &[1, 1, 1] },
+        Config { name: "l1-h5-w8", heights: &[5], ws: &[8] },
     ];
     if thorough {
         v.extend(vec![
-            Config { name: "l1-h5-w8", heights: &[5], ws: &[8] },
             Config { name: "l2-h5.10-w8.1", heights: &[5, 10], ws: &[8, 1] },
             Config { name: "l2-h5.5-w2.2", heights: &[5, 5], ws: &[2, 2] },
             Config { name: "l4-h10.5.5.5-w4.4.2.1", heights: &[10, 5, 5, 5], ws: &[4, 4, 2, 1] },
